@@ -1,17 +1,26 @@
 (* C11  No input file can crash, hang or corrupt the reader.
-   Level reached: proof on the modelled primitives + fault exploration of the real readers.
+   Level reached: proof on the modelled primitives and of the read_total half for the two reader models + fault
+   exploration of the real readers.
    PROVED on the models: the number scanner returns a result for every byte string and never consumes
    more than it was given (read_num_total), every loop iteration consumes one byte (scan_progress);
    the field splitter (sscanf %s iterated) is total, every successful field read consumes input, its
    fuel (= number of bytes) is never exhausted (fields_total, scan_field_progress).
+   read_total for the modelled readers: C11_lp_reader_total (IO/LpTotal.fuel_suffices) and C11_mps_reader_total
+   (IO/MpsTotal.mps_reader_total): the line-level models of ILLread_lp and ILLread_mps - which agree with
+   mpq_QSget_prob on every file of the correspondence checks of C10, accepted or rejected - answer for every list of
+   lines; their loops run on fuel and the answer "fuel exhausted" is unreachable because every iteration consumes a byte
+   or a line (the "never loops without consuming input" half of the property, for the control flow that is modelled).
+   Every rejection reason of the MPS reader model (IO/MpsRead.mreason) is visited by a generated file under ASan+UBSan
+   in checks/C11.py (family "mps-reasons").
    REFUTED for the code as found: "no fault" - the strings "1/0" and "/" divide by zero
    (no_fault_refuted_*; replayed against the library: SIGFPE) - and PROVED for the patched scanner
    (fixed_no_div_zero).
-   NOT PROVED: memory safety / termination of ILLread_lp, ILLread_mps, ILLlib_readbasis themselves
-   (no byte-level model of their buffers): explored under ASan+UBSan with a watchdog. *)
+   NOT PROVED: memory safety of ILLread_lp, ILLread_mps, ILLlib_readbasis themselves (no byte-level model of their
+   buffers, symbol tables and error paths) and termination of the code outside the modelled control flow (compression
+   layer, conversion): explored under ASan+UBSan with a watchdog. *)
 From Coq Require Import List Ascii String QArith.
 Import ListNotations.
-From QSX Require Import IO.Num IO.NumSound IO.Lex.
+From QSX Require Import IO.Num IO.NumSound IO.Lex IO.LpRead IO.LpTotal IO.MpsRead IO.MpsTotal.
 
 Theorem C11_read_num_total :
   forall strict s, exists r n, read_num_gen strict s = (r, n) /\ (n <= List.length s)%nat.
@@ -44,3 +53,22 @@ Theorem C11_field_progress :
   w <> [] /\ (List.length t < List.length l)%nat /\ forallb (fun c => negb (is_space c)) w = true.
 Proof. exact scan_field_progress. Qed.
 Print Assumptions C11_field_progress.
+
+(* ---- read_total for the modelled readers ---------------------------------------------------------------------------------- *)
+Theorem C11_lp_reader_total : forall strict M ls, read_lp_res strict M ls <> PrFuel.
+Proof. exact fuel_suffices. Qed.
+Print Assumptions C11_lp_reader_total.
+
+Theorem C11_mps_reader_total : forall strict M ls, read_mps_res strict M ls <> MFuel.
+Proof. exact mps_reader_total. Qed.
+Print Assumptions C11_mps_reader_total.
+
+(* progress of the MPS loops: reading a number consumes at least one byte of the line, fetching a line at least one line *)
+Theorem C11_mps_number_progress : forall strict t t1 q, get_double strict t = DVal t1 q -> (List.length (t_cur t1) < List.length (t_cur t))%nat.
+Proof. exact get_double_lt. Qed.
+Print Assumptions C11_mps_number_progress.
+
+Theorem C11_mps_line_progress : forall ls r rest, mnext_line ls = (r, rest) ->
+  (List.length rest <= List.length ls)%nat /\ (ls <> [] -> (List.length rest < List.length ls)%nat).
+Proof. exact mnext_line_len. Qed.
+Print Assumptions C11_mps_line_progress.
